@@ -80,6 +80,7 @@ theorem le_checkPat : ∀ (p : IPat) ty Γ (s : St), Le s (checkPat p ty Γ s).2
   · intro ty Γ s; rw [checkPat]; exact le_push _ _
   · intro ty Γ s; rw [checkPat]; exact le_push _ _
   · intro ty Γ s; rw [checkPat]; exact le_push _ _
+  · intro k ty Γ s; rw [checkPat]; exact le_push _ _
   · intro ps ih ty Γ s; rw [checkPat]
     exact (le_tupleElemTys _ _ _).trans ((ih _ _ _).trans (le_push _ _))
   · intro tys Γ s; simp only [checkPatZip]; exact Le.refl _
